@@ -12,6 +12,8 @@ Judged clauses (one signature each):
 """
 import os, sys, math, json
 
+for _v in ('OMP_NUM_THREADS', 'OPENBLAS_NUM_THREADS', 'MKL_NUM_THREADS'):
+    os.environ.setdefault(_v, '1')       # effective only if numpy is not loaded yet; bin/check exports the same
 if 'dfols' not in sys.modules:
     _repo = os.environ.get('DFOLS_REPO', '/repo')
     if _repo not in sys.path:
@@ -31,7 +33,7 @@ RULE = ("Each case: dimension n in 1..6, p in 1..4 sets drawn from balls / half-
         "max_iter+1 performs no further sweep. Distances to sets use own exact projectors; rounding slack 1e-13*(1+|data|). The "
         "true projection is a reference Dykstra run to machine precision whose result is certified by a KKT bound "
         "(|x_ref - x*| <= cert = |rho| + sqrt(sum lambda_i slack_i) via NNLS multipliers; SLSQP + Newton polish as fallback when "
-        "Dykstra is too slow); the 1e-3 clause is judged only when |result - x_ref| +- cert decides it. A case is non-trivial iff x0 lies outside at least one set, p >= 2 and at least 2 sweeps ran.")
+        "Dykstra is too slow); the 1e-3 clause is judged only when |result - x_ref| +- cert decides it. The 'unchanged up to rounding' clause uses 1e-15 relative to the data magnitude max(|x0|, |c|+r, |b|/|a|, finite box sides). A case is non-trivial iff x0 lies outside at least one set, p >= 2 and at least 2 sweeps ran.")
 
 SLACK = 1e-13
 REF_CERT = 1e-6
@@ -540,6 +542,8 @@ def tasks(seed, tier):
 
 
 def run_task(task):
+    import time
+    t0 = time.process_time()
     rng = np.random.default_rng((int(task['seed']), int(task['idx'])))
     st = {}
     viol = []
@@ -581,6 +585,7 @@ def run_task(task):
             nontriv += 1
             if sample is None:
                 sample = dict(case=case, info={k: (v2 if not isinstance(v2, (np.floating, np.integer)) else float(v2)) for k, v2 in info.items()})
+    st['cpu_ms'] = int(1000 * (time.process_time() - t0))
     return dict(evaluations=int(task['ncases']), nontrivial=nontriv, violations=viol, stats=st, sample=sample)
 
 
